@@ -68,6 +68,7 @@ var c04Mutants = []Mutant{
 }
 
 func runC04(p *chk.Prog, r *chk.Report) {
+	nodeExclusionRule(p, r)
 	c04Election(p, r)
 	c04Eligible(p, r)
 	c04Winner(p, r)
@@ -76,6 +77,8 @@ func runC04(p *chk.Prog, r *chk.Report) {
 }
 
 func runC12(p *chk.Prog, r *chk.Report) {
+	c04Eligible(p, r)
+	nodeExclusionRule(p, r)
 	c04Election(p, r)
 	electionScope(p, r)
 }
@@ -348,12 +351,32 @@ func c04Winner(p *chk.Prog, r *chk.Report) {
 		as, ok := nd.(*ast.AssignStmt)
 		return ok && len(as.Rhs) == 1 && f.MatchWith("nodesWithActiveSpeakers(M)", as.Rhs[0], chk.H("M", sm)) != nil
 	})
-	x.Check("ShouldAnnounce:candidates-are-filtered-speakers", f.Pos(), len(base) == 1, "", "the candidates are not nodesWithActiveSpeakers(speakersForPool(l, name, pool, nodes))")
+	// ... or the keys of that map collected in place (the helper is nothing else): a loop over the map that appends
+	// every key to a list that starts empty
+	var list types.Object
+	inPlace := false
+	if len(base) == 1 {
+		list = f.ObjOf(base[0].Node.(*ast.AssignStmt).Lhs[0])
+	} else if len(base) == 0 {
+		for _, rs := range f.RangeLoops(sm) {
+			apps := g.Find(func(nd ast.Node) bool {
+				return chk.InBody(rs, nd) && f.IsAssignPat("R", "append(R, K)", chk.H("K", rangeKey(f, rs)))(nd)
+			})
+			if len(apps) != 1 || loopCanSkip(g, rs, func(nd ast.Node) bool { return nd == apps[0].Top }) {
+				continue
+			}
+			l := f.ObjOf(apps[0].Node.(*ast.AssignStmt).Lhs[0])
+			if l == nil || !g.LoopEntryDominated(rs, g.GPat(true, "len(L) == 0", chk.H("L", f.IsObj(l)))) && !startsEmptyBefore(f, g, l, rs) {
+				continue
+			}
+			list, inPlace = l, true
+		}
+	}
+	x.Check("ShouldAnnounce:candidates-are-filtered-speakers", f.Pos(), list != nil, "", "the candidates are not nodesWithActiveSpeakers(speakersForPool(l, name, pool, nodes))")
 	local := g.GPat(true, "S.Spec.ExternalTrafficPolicy == L", chk.H("S", isParam(f, "svc")), chk.H("L", constStr(f, "Local")))
 	es := g.EdgesImplying(local)
 	x.Check("ShouldAnnounce:local-branch", f.Pos(), len(es) == 1, "", "no branch on ExternalTrafficPolicy == Local")
-	if len(base) == 1 {
-		list := f.ObjOf(base[0].Node.(*ast.AssignStmt).Lhs[0])
+	if list != nil {
 		for _, e := range es {
 			w := g.BranchAlways(e, f.IsAssignPat("L", "nodesWithEndpoint(E, M)", chk.H("L", f.IsObj(list)), chk.H("E", eps), chk.H("M", sm)))
 			x.Check("ShouldAnnounce:local-policy-needs-local-endpoint", posOf(w, f), !w.Found, "", "under the Local policy the candidates are not restricted to nodes hosting a servable endpoint")
@@ -369,7 +392,13 @@ func c04Winner(p *chk.Prog, r *chk.Report) {
 			}
 		}
 	}
-	na := need(x, p, "speaker", "", "nodesWithActiveSpeakers")
+	na := p.LookupFunc("speaker", "", "nodesWithActiveSpeakers")
+	if na == nil && !inPlace {
+		na = need(x, p, "speaker", "", "nodesWithActiveSpeakers")
+	}
+	if na == nil && inPlace {
+		x.OK("nodesWithActiveSpeakers:all-keys", f.Pos(), "the keys are collected in place in ShouldAnnounce")
+	}
 	if na != nil {
 		ag := na.Graph()
 		okk := false
